@@ -50,10 +50,9 @@ Definition store_variants : list (eqflags * dup_mode) :=
     mk false false DupStoredAndLocal; mk true true DupLocalElseStored; mk false true DupLocalElseStored;
     mk true false DupLocalElseStored; mk false false DupLocalElseStored ].
 Definition compact_variants : list cflags :=
-  [ {| cf_stale_prev := true; cf_blind_repoint := true |};
-    {| cf_stale_prev := false; cf_blind_repoint := true |};
-    {| cf_stale_prev := true; cf_blind_repoint := false |};
-    {| cf_stale_prev := false; cf_blind_repoint := false |} ].
+  let mk (a b c : bool) := {| cf_stale_prev := a; cf_blind_repoint := b; cf_shared_refs := c |} in
+  [ mk true true true; mk false true true; mk true false true; mk false false true;
+    mk true true false; mk false true false; mk true false false; mk false false false ].
 (** order = order of VARIANTS in lib/props/c12.py (compaction flags vary slowest) *)
 Definition variants : list variant :=
   flat_map (fun cf => map (fun s => (s, cf)) store_variants) compact_variants.
@@ -79,7 +78,8 @@ Definition dup_store (v : variant) (st : store) (ds : Z) (id : uri) : store * bo
     (set_ds st2 ds d', true)
   end.
 
-Record cres := { cr_store : store; cr_flushes : Z; cr_crashed : bool; cr_raced : bool; cr_racenew : Z }.
+Record cres := { cr_store : store; cr_flushes : Z; cr_crashed : bool; cr_raced : bool; cr_racenew : Z;
+                 cr_shared : bool (* a committed flush deleted reference keys shared with a kept version *) }.
 
 Definition compact_store (v : variant) (st : store) (ds thr crash : Z) (race : option (Z * list ent))
            (order : list uri) : cres :=
@@ -102,13 +102,14 @@ Definition compact_store (v : variant) (st : store) (ds thr crash : Z) (race : o
       let d2 := store_batch_ds (v_fl v) (v_dm v) (s_clock st1) ents d1 in
       let d3 := apply_flushes (v_cf v) d2 (skipn k gs) in
       {| cr_store := set_ds st1 ds d3; cr_flushes := if crashing then crash else n; cr_crashed := crashing;
-         cr_raced := true; cr_racenew := Z.of_nat (length (d_entries d2)) - Z.of_nat (length (d_entries d1)) |}
+         cr_raced := true; cr_racenew := Z.of_nat (length (d_entries d2)) - Z.of_nat (length (d_entries d1));
+         cr_shared := existsb i_shared (concat gs) |}
     else
       {| cr_store := set_ds st ds (apply_flushes (v_cf v) d gs); cr_flushes := if crashing then crash else n;
-         cr_crashed := crashing; cr_raced := false; cr_racenew := 0 |}
+         cr_crashed := crashing; cr_raced := false; cr_racenew := 0; cr_shared := existsb i_shared (concat gs) |}
   | None =>
     {| cr_store := set_ds st ds (apply_flushes (v_cf v) d gs); cr_flushes := if crashing then crash else n;
-       cr_crashed := crashing; cr_raced := false; cr_racenew := 0 |}
+       cr_crashed := crashing; cr_raced := false; cr_racenew := 0; cr_shared := existsb i_shared (concat gs) |}
   end.
 
 (** ** what the model predicts for a block of reads *)
@@ -146,7 +147,9 @@ Definition m_pointers (d : dstate) : list (vkey * bool) :=
                       | None => []
                       end) (latest_keys d).
 
-Definition agree_op (v : variant) (st : store) (o : cop) : store * bool :=
+(** [taint]: an earlier compaction of this run deleted reference keys shared with a kept version (F12c); the reference
+    index (not modelled) is damaged from then on, so no prediction is made about relationship queries *)
+Definition agree_op (v : variant) (taint : bool) (st : store) (o : cop) : store * bool * bool :=
   match o with
   | CWrite w o_new =>
     let st' := apply_wop (v_fl v) (v_dm v) st w in
@@ -154,29 +157,32 @@ Definition agree_op (v : variant) (st : store) (o : cop) : store * bool :=
           | WBatch ds _ => (o_new <? 0) ||
                Z.eqb (Z.of_nat (length (d_entries (get_ds st' ds))) - Z.of_nat (length (d_entries (get_ds st ds)))) o_new
           | WTxn _ => true
-          end)
+          end, taint)
   | CDup ds id o_found =>
-    let '(st', f) := dup_store v st ds id in (st', Bool.eqb f o_found)
+    let '(st', f) := dup_store v st ds id in (st', Bool.eqb f o_found, taint)
   | CCompact ds thr crash race order o_fl o_cr o_ra o_rn before after =>
     let r := compact_store v st ds thr crash race order in
+    let taint' := taint || cr_shared r in
     (cr_store r,
      reads_agree st ds before
      && Z.eqb (cr_flushes r) o_fl && Bool.eqb (cr_crashed r) o_cr && Bool.eqb (cr_raced r) o_ra
      && Z.eqb (cr_racenew r) o_rn
      && reads_agree (cr_store r) ds after
-     (* relationship queries are not modelled: the repaired variant predicts "unchanged", the stale-prev variant nothing *)
-     && (cf_stale_prev (v_cf v) || o_ra || rels_same before after))
+     (* relationship queries are not modelled: "unchanged" is predicted unless the comparison base can be stale (F12a),
+        a writer raced, or a committed flush (now or earlier) deleted reference keys shared with a kept version (F12c) *)
+     && (cf_stale_prev (v_cf v) || o_ra || taint' || rels_same before after),
+     taint')
   | CRaw ds o_log o_latest o_cons =>
     let d := get_ds st ds in
-    (st, list_eqb vkey_pair_eqb (m_log d) o_log && list_eqb vkey_flag_eqb (m_pointers d) o_latest && o_cons)
+    (st, list_eqb vkey_pair_eqb (m_log d) o_log && list_eqb vkey_flag_eqb (m_pointers d) o_latest && o_cons, taint)
   end.
 
-Fixpoint agree_run (v : variant) (st : store) (ops : list cop) : bool :=
+Fixpoint agree_run (v : variant) (taint : bool) (st : store) (ops : list cop) : bool :=
   match ops with
   | [] => true
-  | o :: ops' => let '(st', ok) := agree_op v st o in ok && agree_run v st' ops'
+  | o :: ops' => let '(st', ok, taint') := agree_op v taint st o in ok && agree_run v taint' st' ops'
   end.
-Definition agree (v : variant) (c : tcase) : bool := agree_run v store0 c.
+Definition agree (v : variant) (c : tcase) : bool := agree_run v false store0 c.
 
 (** ** the executable spec, on the implementation's own observations *)
 Definition get_same (a b : gobs) : bool :=
@@ -211,8 +217,8 @@ Definition evaluate (cs : list tcase) : list (list N) :=
   ++ [ indices_where (fun c => negb (spec_ok c)) cs ].
 
 (** index of the first operation the model does not predict (diagnostics) *)
-Fixpoint first_bad (v : variant) (st : store) (ops : list cop) (i : N) : option N :=
+Fixpoint first_bad (v : variant) (taint : bool) (st : store) (ops : list cop) (i : N) : option N :=
   match ops with
   | [] => None
-  | o :: ops' => let '(st', ok) := agree_op v st o in if ok then first_bad v st' ops' (N.succ i) else Some i
+  | o :: ops' => let '(st', ok, taint') := agree_op v taint st o in if ok then first_bad v taint' st' ops' (N.succ i) else Some i
   end.
